@@ -163,6 +163,14 @@ pub fn run_c06(ctx: &mut Ctx, _known: &Known) {
             forms.push((format!("of(ident,{}) x{}", n, k), vec![("G".into(), seq.clone()), ("condition".into(), ys(&format!("of(G, {})", n)))], Box::new(move |v| t_of(n, v)), false));
             forms.push((format!("not of(ident,{}) x{}", n, k), vec![("G".into(), seq.clone()), ("condition".into(), ys(&format!("not of(G, {})", n)))], Box::new(move |v| t_not(t_of(n, v))), false));
         }
+        // (c') the same, each entry holding a list that stays an or-group of two searches
+        //      (a literal and a regex are not batched together): still ONE operand per entry
+        let seq2 = Yaml::Sequence((0..k).map(|i| map1(&format!("f{}", i), Yaml::Sequence(vec![ys("x"), ys("?^x$")]))).collect());
+        forms.push((format!("all(ident) x{} [two-search entries]", k), vec![("G".into(), seq2.clone()), ("condition".into(), ys("all(G)"))], Box::new(|v| t_and(v)), false));
+        forms.push((format!("sequence x{} [two-search entries]", k), vec![("G".into(), seq2.clone()), ("condition".into(), ys("G"))], Box::new(|v| t_or(v)), false));
+        for n in 0..=k + 1 {
+            forms.push((format!("of(ident,{}) x{} [two-search entries]", n, k), vec![("G".into(), seq2.clone()), ("condition".into(), ys(&format!("of(G, {})", n)))], Box::new(move |v| t_of(n, v)), false));
+        }
         // (d) all/of over a key list (members: nested mappings on one object field)
         let members = Yaml::Sequence((0..k).map(|i| map1(&format!("f{}", i), ys("x"))).collect());
         forms.push((format!("all(key) x{}", k), vec![("G".into(), map1("all(o)", members.clone())), ("condition".into(), ys("G"))], Box::new(|v| t_and(v)), true));
@@ -192,6 +200,23 @@ pub fn run_c06(ctx: &mut Ctx, _known: &Known) {
                         &format!("form `{}` operands {:?}: engine gives {:?}, truth table gives {}", name, v, got.get(j), want.name()),
                         &ex, &ry, true);
                     break;
+                }
+            }
+            // the optimised rule: judged by the table whenever the model does not reproduce the
+            // implementation's reply (a difference the faithful model reproduces is a C01 matter,
+            // decided by the C01 check and its recorded findings)
+            if !ex.agree {
+                let got15 = tri_of(&p, 15);
+                for (j, v) in vs.iter().enumerate() {
+                    let want = table(v);
+                    let g = got15.get(j).map(|s| s.as_str());
+                    if (g == Some("T")) != (want.name() == "T") {
+                        ctx.violation(
+                            "oracle",
+                            &format!("form `{}` operands {:?}, optimised (mask 15): engine gives {:?}, truth table gives {}", name, v, g, want.name()),
+                            &ex, &ry, true);
+                        break;
+                    }
                 }
             }
             // verdict = (result is true), also for the optimised rule (where the table result is T)
@@ -443,6 +468,26 @@ pub fn run_c07(ctx: &mut Ctx, _known: &Known) {
     for p in &patterns {
         string_case(ctx, vec![p.clone()], &docs, &hays, &masks);
     }
+    // white space is part of the text: scalar values with leading / trailing blanks, every shape
+    {
+        let ws_hays: Vec<String> = vec!["a", " a", "a ", " a ", " ", "", "\ta", "xa", " ax", "A", " A"].into_iter().map(|s| s.to_string()).collect();
+        let ws_docs: Vec<Yaml> = ws_hays.iter().map(|h| map1("f", ys(h))).collect();
+        for w in [" a", "a ", " a ", " ", "\ta", "a\t"] {
+            for shape in 0..5 {
+                let p = match shape {
+                    0 => w.to_string(),
+                    1 => format!("{}*", w),
+                    2 => format!("*{}", w),
+                    3 => format!("*{}*", w),
+                    _ => format!("'{}'", w),
+                };
+                for pre in ["", "i"] {
+                    string_case(ctx, vec![format!("{}{}", pre, p)], &ws_docs, &ws_hays, &masks);
+                    string_case(ctx, vec![format!("{}{}", pre, p), "zq".to_string()], &ws_docs, &ws_hays, &masks);
+                }
+            }
+        }
+    }
     // lists of two (all pairs in thorough; a deterministic slice in quick), three and four
     let step = if ctx.tier == "thorough" { 1 } else { 7 };
     let mut idx = 0usize;
@@ -456,14 +501,14 @@ pub fn run_c07(ctx: &mut Ctx, _known: &Known) {
         }
     }
     let n = budget(ctx, 300, 8000);
-    let long_docs: Vec<String> = vec!["", "abab", "aaa", "Ab", "bAa", "xaby", "日a", "aÄb", "ÄÄ", "a\nb", "ab ab", "AAAA", "baab"].into_iter().map(|s| s.to_string()).collect();
+    let long_docs: Vec<String> = vec!["", "abab", "aaa", "Ab", "bAa", "xaby", "日a", "aÄb", "ÄÄ", "a\nb", "ab ab", "AAAA", "baab", " a", "a ", " ", "a", "\ta", " ab ", "b a"].into_iter().map(|s| s.to_string()).collect();
     let ldocs: Vec<Yaml> = long_docs.iter().map(|h| map1("f", ys(h))).collect();
     for i in 0..n {
         let mut r = Rng::new(ctx.seed.wrapping_mul(31).wrapping_add(i as u64));
         let k = 2 + r.below(3);
         let mut ps = vec![];
         for _ in 0..k {
-            let w = *r.pick(&["a", "b", "ab", "ba", "A", "aB", "aa", "", "Ä", "日", "ab ab", "bab"]);
+            let w = *r.pick(&["a", "b", "ab", "ba", "A", "aB", "aa", "", "Ä", "日", "ab ab", "bab", " a", "a ", " ", "\ta", " ab "]);
             let shape = r.below(6);
             let base = match shape {
                 0 => w.to_string(),
@@ -860,6 +905,53 @@ pub fn run_c09(ctx: &mut Ctx, _known: &Known) {
                     if a != b {
                         let dummy = ctx.exchange("tok s:");
                         ctx.violation("oracle", &format!("{} rule `{}`: document {} gives {} as a YAML mapping and {} as a serde_json value", label, name, serde_yaml::to_string(d).unwrap_or_default().replace('\n', " "), a, b), &dummy, &text, true);
+                    }
+                }
+            }
+        }
+    }
+    // (7) str() on both sides of a comparison in the condition: equal canonical decimal texts,
+    //     over the whole unsigned range
+    {
+        fn text_of2(fv: &Yaml) -> Option<String> {
+            match fv {
+                Yaml::Bool(b) => Some(b.to_string()),
+                Yaml::Number(n) if n.is_u64() => Some(n.as_u64().unwrap().to_string()),
+                Yaml::Number(n) if n.is_i64() => Some(n.as_i64().unwrap().to_string()),
+                Yaml::Number(n) => Some(n.as_f64().unwrap().to_string()),
+                Yaml::String(s) => Some(s.clone()),
+                _ => None,
+            }
+        }
+        let vals: Vec<Yaml> = vec![
+            Yaml::Number(u64::MAX.into()), ys("18446744073709551615"), Yaml::Number(9223372036854775808u64.into()), ys("9223372036854775808"),
+            Yaml::Number((i64::MAX as u64).into()), Yaml::Number(5u64.into()), ys("5"), Yaml::Number((-1i64).into()), ys("-1"), Yaml::Number(i64::MIN.into()),
+            Yaml::Bool(true), ys("true"), Yaml::Number(2.5f64.into()), ys("2.5"), Yaml::Null, Yaml::Sequence(vec![ys("5")]),
+        ];
+        let mut docs7: Vec<Yaml> = vec![];
+        let mut pairs: Vec<(Yaml, Yaml)> = vec![];
+        for a in &vals {
+            for b in &vals {
+                docs7.push(mapn(vec![("f".into(), a.clone()), ("g".into(), b.clone())]));
+                pairs.push((a.clone(), b.clone()));
+            }
+        }
+        let cs = case(vec![("A".into(), map1("zz", ys("x"))), ("condition".into(), ys("str(f) == str(g)"))], docs7.clone(), masks.clone());
+        let (ex, parsed) = run_rule_case(ctx, &cs, false);
+        let ry = rule_yaml(&cs);
+        if let Some(p) = parsed {
+            if p.load == "ok" {
+                for m in &p.masks {
+                    for (j, (a, b)) in pairs.iter().enumerate() {
+                        let want = match (text_of2(a), text_of2(b)) {
+                            (Some(x), Some(y)) => x == y,
+                            _ => false,
+                        };
+                        ctx.nontrivial.insert(hash_str(&format!("streq{:?}{:?}", a, b)));
+                        if (m.res[j].0 == "T") != want {
+                            ctx.violation("oracle", &format!("`str(f) == str(g)` (mask {}) gives {} for f = {:?}, g = {:?}; the canonical texts are {}", m.mask, m.res[j].0, a, b, if want { "equal" } else { "different" }), &ex, &ry, true);
+                            break;
+                        }
                     }
                 }
             }
